@@ -635,7 +635,7 @@ fn gen_pat(rng: &mut Rng, name: &str, uniq: usize, big_set: bool) -> Pat {
     let w = format!("{}{}", WORDS[rng.below(12) as usize], if big_set { format!("{:03}", uniq) } else { String::new() });
     let wb = w.as_bytes().to_vec();
     let hexs = |b: &[u8]| b.iter().map(|x| format!("{:02X}", x)).collect::<Vec<_>>().join(" ");
-    match if big_set { rng.below(4) } else { rng.below(12) } {
+    match if big_set { rng.below(4) } else { rng.below(15) } {
         0 | 1 => Pat { def: format!("${} = \"{}\"", name, w), inst: vec![wb], fixed_len: true },
         2 => Pat { def: format!("${} = \"{}\" nocase", name, w), inst: vec![wb.clone(), w.to_uppercase().into_bytes()], fixed_len: true },
         3 => Pat { def: format!("${} = {{ {} }}", name, hexs(&wb)), inst: vec![wb], fixed_len: true },
@@ -654,8 +654,18 @@ fn gen_pat(rng: &mut Rng, name: &str, uniq: usize, big_set: bool) -> Pat {
                Pat { def: format!("${} = {{ ( ?? ?? ?? ?? ?? ?? {} | 51 52 53 54 ) }}", name, hexs(tail)), inst: vec![i1, b"..QRST".to_vec(), [b"..QRST".to_vec(), tail.to_vec()].concat()], fixed_len: false } }
         10 => { let mut i = wb.clone(); i[1] = b'?';
                 Pat { def: format!("${} = {{ {} ?? {} }}", name, hexs(&wb[..1]), hexs(&wb[2..])), inst: vec![i, wb], fixed_len: true } }
-        _ => { let mut i = wb.clone(); i.extend_from_slice(b"--"); i.extend_from_slice(b"end");
+        11 => { let mut i = wb.clone(); i.extend_from_slice(b"--"); i.extend_from_slice(b"end");
                Pat { def: format!("${} = /{}.{{0,4}}end/s", name, w), inst: vec![i], fixed_len: false } }
+        // literal alternatives with a common prefix and different lengths (both at the same offset), in both orders:
+        // which one is reported must not depend on the multi-pattern search that finds the atoms
+        12 => { let short = &w[..w.len() - 1 - rng.below(2) as usize];
+                let def = if rng.chance(1, 2) { format!("${} = /{}|{}/", name, w, short) } else { format!("${} = /{}|{}/", name, short, w) };
+                Pat { def, inst: vec![wb.clone(), short.as_bytes().to_vec(), [wb.clone(), wb].concat()], fixed_len: false } }
+        13 => { let short = &wb[..wb.len() - 1 - rng.below(2) as usize];
+                let def = if rng.chance(1, 2) { format!("${} = {{ ( {} | {} ) }}", name, hexs(&wb), hexs(short)) } else { format!("${} = {{ ( {} | {} ) }}", name, hexs(short), hexs(&wb)) };
+                Pat { def, inst: vec![wb.clone(), short.to_vec(), [wb.clone(), wb.clone()].concat()], fixed_len: false } }
+        _ => { let mut i = wb.clone(); i.extend_from_slice(b"xy");
+               Pat { def: format!("${} = /{}(xy)?/", name, w), inst: vec![i, wb], fixed_len: false } }
     }
 }
 
@@ -844,7 +854,14 @@ fn gen_scan_cases(rng: &mut Rng, idx: usize, out: &mut Out) {
         let mut tags: Vec<&str> = vec![];
         for (_, d) in dumps.iter().skip(1) {
             if d.verdicts != base.verdicts { tags.push(if d.fast { if has_of_anch { "fast-scan:verdict-differs:of-with-anchor" } else { "fast-scan:verdict-differs" } } else { "verdict-differs" }); continue; }
-            if !d.fast { if d.matches != base.matches { tags.push("matches-differ"); } continue; }
+            if !d.fast {
+                if d.matches != base.matches {
+                    // same offsets, different lengths: the alternative reported depends on the searcher that offered the atoms
+                    let same_starts = d.matches.len() == base.matches.len() && d.matches.iter().all(|(p, ms)| base.matches.get(p).map_or(false, |bs| bs.len() == ms.len() && bs.iter().zip(ms.iter()).all(|(a, b)| a.0 == b.0)));
+                    tags.push(if same_starts { "multi-pattern-search:match-length-differs" } else { "matches-differ" });
+                }
+                continue;
+            }
             for (p, f) in &d.matches {
                 if let Some(n) = base.matches.get(p) {
                     let has = |m: &(usize, usize), l: &Vec<(usize, usize)>| l.iter().any(|x| x.0 == m.0 && (!fixed[*p] || x.1 == m.1));
